@@ -17,7 +17,7 @@
    re-bound or alive side by side, interleaved with the appends in any order.
 
    C11_exact_partial / C11_tx_exact_partial / C11_handles_exact_partial are PARTIAL: they assume conv_sound
-   (pyarrow stores a value the library admits as `canon`, or raises) -- a statement about pyarrow, validated by
+   (pyarrow stores a value the library lets through as `canon`, or raises) -- a statement about pyarrow, validated by
    the harness on every run.  The filter theorems assume conv_kinds (a converted cell has the kind of its Arrow
    type), C11_tx_history_filter also pf_typed of every pre-built file (a parquet column holds values of its
    footer type) -- statements about pyarrow / parquet, spelled out as hypotheses.
